@@ -132,7 +132,7 @@ def gen_mode(rng, prefix, rich):
             stim += ["x_%s_%s" % (g, k) for k in ("rl", "rr", "rot", "rst", "en", "dis", "rsta")]
 
     ach = {}
-    for i in range(rng.choice([1, 1, 2] if rich else [0, 1])):
+    for i in range(rng.choice([1, 2, 2, 3] if rich else [0, 1, 2])):
         name = n("h", i)
         a = {"start_events": "x_%s_start" % name, "complete_events": "x_%s_comp" % name,
              "disable_events": "x_%s_dis" % name, "stop_events": "x_%s_stop" % name,
@@ -150,6 +150,21 @@ def gen_mode(rng, prefix, rich):
         ach[name] = a
     if ach:
         cfg["achievements"] = ach
+        if rng.random() < (0.7 if len(ach) >= 2 else 0.3):
+            # achievement group: its selection pointer is device state that is NOT per player; disable_random keeps the
+            # pick deterministic (first selectable member)
+            g = n("ag", 0)
+            grp = {"achievements": sorted(ach), "start_selected_events": "x_%s_ss" % g,
+                   "rotate_right_events": "x_%s_rr" % g, "rotate_left_events": "x_%s_rl" % g,
+                   "select_random_achievement_events": "x_%s_sr" % g, "disable_events": "x_%s_dis" % g,
+                   "disable_random": True, "auto_select": rng.random() < 0.2,
+                   "allow_selection_change_while_disabled": rng.random() < 0.3,
+                   "disable_while_achievement_started": rng.random() < 0.5,
+                   "enable_while_no_achievement_started": rng.random() < 0.6}
+            if rng.random() < 0.35:
+                grp["enable_events"] = "x_%s_en" % g
+            cfg["achievement_groups"] = {g: grp}
+            stim += ["x_%s_%s" % (g, k) for k in ("ss", "ss", "ss", "rr", "rr", "rl", "sr", "dis", "en")]
 
     timers = {}
     for i in range(rng.choice([0, 1] if rich else [0, 0, 1])):
@@ -413,10 +428,15 @@ def devices(cfg):
                 s0 = "disabled"
             else:
                 s0 = "disabled" if d.get("enable_events") else "enabled"
+            auto = any(name in g["achievements"] and g.get("auto_select")
+                       for g in mc.get("achievement_groups", {}).values())
             out.append({"mode": mode, "kind": "achievement", "coll": "achievements", "name": name, "persist": True,
-                        "var": "achievements", "s0": s0,
+                        "var": "achievements", "s0": s0, "auto_selected": auto,
                         "keep_started": d["restart_on_next_ball_when_started"],
                         "keep_enabled": d["enable_on_next_ball_when_enabled"]})
+        for name, d in mc.get("achievement_groups", {}).items():
+            out.append({"mode": mode, "kind": "agroup", "coll": "achievement_groups", "name": name, "persist": False,
+                        "var": "<none:%s>" % name, "members": list(d["achievements"])})
         for name, d in mc.get("extra_balls", {}).items():
             out.append({"mode": mode, "kind": "xb", "coll": "extra_balls", "name": name, "persist": True,
                         "var": "extra_ball_%s_num_awarded" % name, "v0": 0})
